@@ -196,6 +196,51 @@ pub fn run_kr(m: &Material, scn: &Value) -> Value {
     ev
 }
 
+/// C17: a keyring of n entries as the tool writes them (random keys, distinct names): every look-up by name
+/// and by key returns exactly the entry written, and keys that are not in the keyring are not found
+pub fn run_krbig(t: &Templates, seed: u64, scn: &Value) -> Value {
+    let n = ju64(scn, "n") as usize;
+    let k = ju64_or(scn, "k", 0);
+    let mut rng = Rng::derive(seed, &format!("krbig{}.{}", n, k));
+    let mut names = Vec::new();
+    let mut pubs = Vec::new();
+    let mut text = String::new();
+    let enc = |pk: &[u8]| String::from_utf8(t.must("encoded_pub", &Env::new().b("pk", pk))).unwrap();
+    for i in 0..n {
+        let pk = rng.bytes32();
+        let name = format!("entry {} {:08x}", i, rng.next() as u32);
+        let e = enc(&pk);
+        text.push_str(&format!("[Key]\nName = {}\nPublicKey = {}\n\n", name, e));
+        names.push(name);
+        pubs.push(e);
+    }
+    let strangers: Vec<String> = (0..n.max(50)).map(|_| enc(&rng.bytes32())).collect();
+    let mut ev = json!({"ev":"krbig","id":scn.get("id").cloned().unwrap_or(json!("")),"n":n,"accepted":false,"panic":false,
+                        "nentries":0,"lookups_ok":false,"misses_ok":false});
+    match catch_unwind(AssertUnwindSafe(|| Keyring::new(&text))) {
+        Err(_) => ev["panic"] = json!(true),
+        Ok(Err(_)) => {}
+        Ok(Ok(kr)) => {
+            ev["accepted"] = json!(true);
+            ev["nentries"] = json!(entries_of(&format!("{:?}", kr)).len());
+            let mut ok = true;
+            for i in 0..n {
+                ok = ok && kr.get_key(&names[i]).map(|x| x.public_key.as_str() == pubs[i] && x.name == names[i]).unwrap_or(false);
+                let e: Result<EncodedPk, _> = EncodedPk::try_from(pubs[i].as_str());
+                ok = ok && e.map(|e| kr.get_name_from_key(&e).as_deref() == Some(names[i].as_str())).unwrap_or(false);
+            }
+            ev["lookups_ok"] = json!(ok);
+            let mut miss = kr.get_key("no such entry").is_none();
+            for s in strangers.iter() {
+                let e: Result<EncodedPk, _> = EncodedPk::try_from(s.as_str());
+                miss = miss && e.map(|e| kr.get_name_from_key(&e).is_none()).unwrap_or(false);
+            }
+            ev["misses_ok"] = json!(miss);
+        }
+    }
+    ev
+}
+
 /// C15 events
 pub fn run_lock(t: &Templates, seed: u64, scn: &Value) -> Value {
     let kind = jstr(scn, "kind");
@@ -384,6 +429,7 @@ pub fn run_file(t: &Templates, seed: u64, inp: &str, outp: &str) {
             "kr" => run_kr(&m, &scn),
             "lock" => run_lock(t, seed, &scn),
             "pub" => run_pub(t, seed, &scn),
+            "krbig" => run_krbig(t, seed, &scn),
             x => panic!("op {}", x),
         };
         writeln!(o, "{}", v).unwrap();
